@@ -92,6 +92,21 @@ let show_descr (d : descr) : string =
 
 (* ---- tiny s-expression reader for structured inputs ---- *)
 type sexp = A of string | L of sexp list
+
+let fam_name = function FFlorySchulz -> "flory_schulz" | FGauss -> "gauss" | FUniform -> "uniform" | FSchulzZimm -> "schulz_zimm"
+                      | FLogNormal -> "log_normal" | FPoisson -> "poisson"
+let show_mol (m : pmolecule) : string =
+  let el = function
+    | MTok t -> "T:" ^ hex (implode (print_token fprint true t))
+    | MStoch s -> Printf.sprintf "S:%s:%s:%s:%s:%d:%s" (hex (implode (print_descr fprint true s.ps_left))) (hex (implode (print_descr fprint true s.ps_right)))
+                    (String.concat "+" (List.map (fun t -> hex (implode (print_token fprint true t))) s.ps_rep))
+                    (String.concat "+" (List.map (fun t -> hex (implode (print_token fprint true t))) s.ps_end))
+                    (List.length s.ps_bds) (match s.ps_dist with None -> "none" | Some (f, _) -> fam_name f) in
+  let on = function None -> "-" | Some x -> string_of_num x in
+  Printf.sprintf "elems=%s mix=%s gen=%s" (String.concat "," (List.map el m.ml_elems))
+    (match m.ml_mix with None -> "none" | Some x -> on x.mx_abs ^ ";" ^ on x.mx_rel)
+    (if molecule_generable m then "T" else "F")
+
 let parse_sexp (s : string) : sexp =
   let n = String.length s in
   let pos = ref 0 in
@@ -302,19 +317,17 @@ let handle (fields : string list) : string =
     let valid_atom (t : str) = List.mem (implode t) vs in
     (match parse_molecule valid_atom fprint (explode (unhex raw)) with
      | Err (e, _) -> "ERR " ^ err_name e
-     | OK m ->
-       let fam = function FFlorySchulz -> "flory_schulz" | FGauss -> "gauss" | FUniform -> "uniform" | FSchulzZimm -> "schulz_zimm"
-                        | FLogNormal -> "log_normal" | FPoisson -> "poisson" in
-       let el = function
-         | MTok t -> "T:" ^ hex (implode (print_token fprint true t))
-         | MStoch s -> Printf.sprintf "S:%s:%s:%s:%s:%d:%s" (hex (implode (print_descr fprint true s.ps_left))) (hex (implode (print_descr fprint true s.ps_right)))
-                         (String.concat "+" (List.map (fun t -> hex (implode (print_token fprint true t))) s.ps_rep))
-                         (String.concat "+" (List.map (fun t -> hex (implode (print_token fprint true t))) s.ps_end))
-                         (List.length s.ps_bds) (match s.ps_dist with None -> "none" | Some (f, _) -> fam f) in
-       let on = function None -> "-" | Some x -> string_of_num x in
-       Printf.sprintf "OK elems=%s mix=%s gen=%s" (String.concat "," (List.map el m.ml_elems))
-         (match m.ml_mix with None -> "none" | Some x -> on x.mx_abs ^ ";" ^ on x.mx_rel)
-         (if molecule_generable m then "T" else "F"))
+     | OK m -> "OK " ^ show_mol m)
+  | [ "system"; raw; valid; smw ] ->
+    let vs = List.map unhex (split_nonempty ',' valid) in
+    let valid_atom (t : str) = List.mem (implode t) vs in
+    (match parse_system valid_atom fprint (explode (unhex raw)) (if smw = "N" then None else Some (q_of_string smw)) with
+     | Err (e, _) -> "ERR " ^ err_name e
+     | OK s ->
+       let oq = function None -> "-" | Some v -> string_of_q v in
+       let showc = function None -> "none" | Some m -> oq m.x_abs ^ ";" ^ oq m.x_rel ^ ";" ^ oq m.x_sys in
+       Printf.sprintf "OK gen=%s comps=%s mols=%s" (if s.sy_generable then "T" else "F") (String.concat "," (List.map showc s.sy_comps))
+         (String.concat "/" (List.map (fun m -> hex (show_mol m)) s.sy_mols)))
   | [ "token"; raw; off; valid ] ->
     (* valid: comma separated hex of the bracket atoms RDKit accepts *)
     let vs = List.map unhex (split_nonempty ',' valid) in
